@@ -491,6 +491,7 @@ func (r *ChunkReader) load(cOffset int64, arity uint8) error {
 
 func (r *ChunkReader) loadAndValidate(cOffset int64,
 	parentCodec Codec, parentCodecHasMixBit bool, parentVersion uint8, parentCOffMax int64,
+	parentCOffset int64, parentDPtrMax int64,
 	childCBias int64, childDSize int64) error {
 
 	if (cOffset < 0) || ((r.CompressedSize - 4) < cOffset) {
@@ -530,6 +531,14 @@ func (r *ChunkReader) loadAndValidate(cOffset int64,
 		(parentVersion < childVersion) ||
 		(parentCOffMax < (childCBias + r.currNode.cPtrMax())) ||
 		(childDSize != r.currNode.dPtrMax()) {
+		r.err = errInvalidIndexNode
+		return r.err
+	}
+
+	// Rule out infinite loops, as per the RAC specification's "Search Within a
+	// Branch Node" section: either the child's Branch COffset or the child's
+	// DPtrMax must be (strictly) less than the parent's.
+	if (cOffset >= parentCOffset) && (r.currNode.dPtrMax() >= parentDPtrMax) {
 		r.err = errInvalidIndexNode
 		return r.err
 	}
@@ -600,6 +609,7 @@ func (r *ChunkReader) resolveSeekPosition() error {
 
 	// Walk the branch nodes until we find the leaf node containing the
 	// seekPosition.
+	cOffset := r.rootNodeCOffset
 	cBias := int64(0)
 	dBias := int64(0)
 	for {
@@ -615,6 +625,8 @@ func (r *ChunkReader) resolveSeekPosition() error {
 		parentCodecHasMixBit := r.currNode.codecHasMixBit()
 		parentVersion := r.currNode.version()
 		parentCOffMax := cBias + r.currNode.cPtrMax()
+		parentCOffset := cOffset
+		parentDPtrMax := r.currNode.dPtrMax()
 		childCOffset := r.currNode.cOff(i, cBias)
 		childCBias := cBias
 		if sTag := int(r.currNode.sTag(i)); sTag < r.currNode.arity() {
@@ -625,10 +637,12 @@ func (r *ChunkReader) resolveSeekPosition() error {
 
 		if err := r.loadAndValidate(childCOffset,
 			parentCodec, parentCodecHasMixBit, parentVersion, parentCOffMax,
+			parentCOffset, parentDPtrMax,
 			childCBias, childDSize); err != nil {
 			return err
 		}
 
+		cOffset = childCOffset
 		cBias = childCBias
 		dBias = childDBias
 	}
